@@ -51,7 +51,13 @@ kf = json.load(open(f'{V}/known_findings.json'))
 have = {(e.get('property'), e.get('bucket'), e.get('commit')) for e in kf['findings']}
 kp = f'{pd}/known.json'
 if os.path.exists(kp):
+    import re
     for e in json.load(open(kp)):
+        fx = str(e.get('proposed_fix') or e.get('fixed_by') or '')
+        names = re.findall(r'fix\d+', fx)
+        if names and all(os.path.exists(f'{pd}/{n}.applied') for n in names):
+            print('known entry dropped (repaired by', names, '):', e.get('bucket')); continue
+        e = {k: v for k, v in e.items() if k in ('status', 'property', 'bucket', 'what', 'witness')}
         if (e['property'], e.get('bucket'), None) not in have and e.get('status') == 'known':
             kf['findings'].append(e); have.add((e['property'], e.get('bucket'), None))
 for name, h, msg in applied:
